@@ -17,8 +17,14 @@ def sh(cmd, cwd=None, env=None, timeout=2400):
     return p.returncode, p.stdout + p.stderr
 
 
+COPY = os.environ.get('MATRIX_REPO_COPY')      # run against a scratch copy of /repo instead of /repo itself
+
+
 def one(prop):
-    rc, out = sh('/venv/bin/python check.py %s --tier quick' % prop, cwd=VERIF, env=dict(os.environ, VERIF_SEED='4'))
+    env = dict(os.environ, VERIF_SEED='4')
+    if COPY:
+        env.update(QSTRADER_REPO=COPY, PYTHONPATH=COPY)
+    rc, out = sh('/venv/bin/python check.py %s --tier quick' % prop, cwd=VERIF, env=env)
     line = [l for l in out.split('\n') if l.startswith('VIOLATION')]
     if rc not in (0, 1):
         open('/tmp/matrix_infra_%s.log' % prop, 'w').write(out[-3000:])
@@ -31,11 +37,15 @@ def main():
     matrix = json.load(open(path)) if os.path.exists(path) else {}
     for name in names:
         patch = os.path.join(VERIF, 'seeded', name, 'patch.diff')
-        rc, out = sh('git -C /repo status --porcelain')
-        if out.strip():
-            print('/repo not clean')
-            return 2
-        rc, out = sh('git -C /repo apply %s' % patch)
+        if COPY:
+            sh('rm -rf %s && mkdir -p %s && git -C /repo archive HEAD | tar -x -C %s' % (COPY, COPY, COPY))
+            rc, out = sh('patch -p1 -s < %s' % patch, cwd=COPY)
+        else:
+            rc, out = sh('git -C /repo status --porcelain')
+            if out.strip():
+                print('/repo not clean')
+                return 2
+            rc, out = sh('git -C /repo apply %s' % patch)
         if rc:
             print(name, 'patch does not apply', out)
             continue
@@ -44,7 +54,8 @@ def main():
             with concurrent.futures.ThreadPoolExecutor(6) as ex:
                 res = list(ex.map(one, ALL))
         finally:
-            sh('git -C /repo checkout -- .')
+            if not COPY:
+                sh('git -C /repo checkout -- .')
         fired = {p: ('no-failing-input-found' if 'no-failing-input-found' in line else 'violation') for p, rc, line in res if rc == 1}
         infra = [p for p, rc, line in res if rc not in (0, 1)]
         matrix[name] = dict(fired=fired, infra=infra)
